@@ -14,6 +14,7 @@ import ast
 import sympy as sp
 
 from ..core import astutil as au
+from ..core.template import has as _has
 from ..core.cfg import CFG, solve_forward
 from ..core.report import AnalysisError
 from ..expr.lift import Lifter, equal
@@ -145,8 +146,8 @@ def rule_maps(ctx):
     mm = ctx.repo.mod(MODELS)
     mi = mm.method('Model', '__init__')
     ctx.check('C14.M5.registry', "Model resolves 'Map' + mapping",
-              "self.map = getattr(maps, 'Map' + mapping)()" in
-              ast.unparse(mi), 'Model does not select the map class by name',
+              _has("self.map = getattr(maps, 'Map' + mapping)()", mi),
+              'Model does not select the map class by name',
               ctx.where(mm, mi))
 
 
